@@ -140,6 +140,11 @@ func (c caseT) streamCall() wire.StreamCall {
 	}
 	for k, in := range c.Inputs {
 		x := wire.Input{Cancel: k == c.CancelAt}
+		if x.Cancel {
+			// presence of the key is the signal: vary the value (deterministic in k and the call)
+			cv := []string{"true", "", "1", "0", "false"}[(k+len(c.Inputs))%5]
+			x.CancelValue = &cv
+		}
 		if !c.Producer && !x.Cancel {
 			x.Batch = svc.BuildInput(in, c.Variant)
 		}
